@@ -75,7 +75,7 @@ def expected(decls, kinds=None):
         elif d[0] == "enum":
             out["enums"].append({"name": d[1], "enumeration": [{"name": n, "value": Exact(v)} for n, v in d[2]]})
         elif d[0] == "impl":
-            _, proto, typ, as_name, fields, signals = d
+            _, proto, typ, as_name, fields, signals = d[:6]
             out["impls"].append(
                 {
                     "name": as_name if as_name is not None else typ,
@@ -179,7 +179,7 @@ def expected_reflection(decls):
         elif d[0] == "enum":
             out["enums"].append({"name": d[1], "enumeration": [{"name": n, "value": v} for n, v in d[2]]})
         elif d[0] == "impl":
-            _, proto, typ, as_name, fields, signals = d
+            _, proto, typ, as_name, fields, signals = d[:6]
             out["impls"].append(
                 {
                     "name": as_name if as_name is not None else typ,
